@@ -57,7 +57,7 @@ def cases(tier, seed=0):
     # a few 3-element spot layouts in quick as well
     for idx, st in enumerate(EC.covering_pair_states(("Zr", "Cu", "Al"), seed=1)[:6]):
       cs.append(Case("api Zr/Cu/Al cover%d" % idx, api_case, elements=("Zr", "Cu", "Al"), pairs=st, nr=2, nrho=2, route="class", rot=idx))
-    for m in ("eam_basic", "eam_species", "eam_undeclared", "eam_multirange"):
+    for m in ("eam_basic", "eam_species", "eam_decorated", "eam_undeclared", "eam_multirange"):
       # (grids of different size: a block written with the other grid's length shifts everything after it)
       cs.append(Case("potable %s" % m, EP.potable_case, model_name=m, target="setfl", nr=3, nrho=4 if m == "eam_undeclared" else 3))
     cs.append(Case("potable eam_basic after eam_species", EP.potable_case, model_name="eam_basic", target="setfl", nr=2, nrho=2,
